@@ -100,8 +100,11 @@ def run(ck, rng):
             doc = mutate(rng, doc)
             if massive and doc.count(b"\n-") + doc.count(b"\n*") + doc.count(b"\n+") + doc.count(b"\n#") > 0:
                 massive = False
+        if not massive and rng.random() < 0.06:
+            # the read fails before the first root is complete: an over-long first row (the scanner's limit)
+            doc = rng.choice([b"- ", b"", b"  "]) + b"x" * rng.choice([65536, 70000]) + b"\n" + doc
         stdout_mode = rng.choice(["pipe", "pipe", "pipe", "full", "closed"])
-        via_file = rng.choice([None, None, "in.md", "-", "missing.md"])
+        via_file = rng.choice([None, None, "in.md", "-", "missing.md"] + (["adir"] if kind != "usage" else []))
         args, pre, lib, expect_usage_err, expect_open_err = [], [], None, False, False
         mfmt, mdry, mexts, mtarget, mstrict = "-", "0", [], b"", "0"
         stdin = doc
@@ -163,9 +166,17 @@ def run(ck, rng):
                 stdin = b""
             if via_file == "missing.md":
                 expect_open_err = True
+            if via_file == "adir":
+                # --file names a directory: opening succeeds, the first read fails; judged like an open failure
+                pre.append((b"adir", "d"))
+                expect_open_err = True
+                stdin = b""
         jobs.append((kind, args, stdin, stdout_mode, pre, lib, expect_usage_err, expect_open_err, doc, via_file, massive))
         lib_cases.append(lib or "settle")
         mpre = [(p_, k_) for p_, k_ in pre if p_ != b"in.md"]
+        if via_file == "adir" and kind != "usage":
+            model_cases.append("skip")
+            continue
         model_cases.append("cli %s %s %s %s %s %s %s %s %s %s %s" % (
             kind if kind != "usage" else args[0] if args[0] in ("output", "mkdir", "verify", "template") else "output",
             "1" if (expect_usage_err and mfmt not in ("xml",)) or kind == "usage" else "0", mfmt, "1" if expect_open_err else "0", mdry,
